@@ -246,6 +246,12 @@ vbi_pfc_demux_feed		(vbi_pfc_demux *	dx,
 		if (pgno < 0)
 			goto desynced;
 
+		if (dx->packet <= dx->n_packets) {
+			/* The last packets of the previous page are
+			   missing, discard the block in progress. */
+			vbi_pfc_demux_reset (dx);
+		}
+
 		if (pgno != dx->block.pgno) {
 			dx->n_packets = 0;
 			return TRUE;
